@@ -33,6 +33,13 @@ def check(ctx, cfg):
     r4(ctx, cfg)
     r5(ctx, cfg)
     r6(ctx, cfg)
+    r_overlay(ctx, cfg)
+
+
+def r_overlay(ctx, cfg):
+    """premise shared with C06 (the transaction overlay is faithful), under this property's id: slashing rewrites every stake entry of the validator inside one transaction, and removes the ones that reach zero"""
+    from rules import C06
+    C06.overlay_premise(ctx, cfg, "C16.R7")
 
 
 def r5(ctx, cfg):
